@@ -35,21 +35,23 @@ func checkC07(c *Ctx, r *Report) {
 		}
 		name := "[" + arch + "] sm4.(*sm4GcmAsm).Open"
 		var accept []*ssa.Return
+		nrej := 0
 		for _, b := range fn.Blocks {
 			ret, ok := b.Instrs[len(b.Instrs)-1].(*ssa.Return)
-			if !ok {
-				continue
+			if !ok || b == fn.Recover {
+				continue // (the recover block of a function with defers re-returns the named results; it has no path of its own)
 			}
-			if isNilConst(ret.Results[1]) {
+			if isNilConst(retVals(ret)[1]) {
 				accept = append(accept, ret)
 				continue
 			}
 			// (d) rejects
-			okRej := isNilConst(ret.Results[0])
-			if ld, isLd := ret.Results[1].(*ssa.UnOp); !isLd || !isGlobalNamed(ld.X, "errOpen") {
+			okRej := isNilConst(retVals(ret)[0])
+			if ld, isLd := retVals(ret)[1].(*ssa.UnOp); !isLd || !isGlobalNamed(ld.X, "errOpen") {
 				okRej = false
 			}
-			r.Check(okRej, "REJECT-RESULT", name+" reject at "+p.InstrPos(ret), p.InstrPos(ret), "a rejecting return yields (nil, errOpen)")
+			nrej++
+			r.Check(okRej, "REJECT-RESULT", fmt.Sprintf("%s rejecting return #%d", name, nrej), p.InstrPos(ret), "a rejecting return yields (nil, errOpen)")
 			r.Count("reject_returns_"+arch, 1)
 		}
 		if len(accept) != 1 {
